@@ -416,7 +416,7 @@ impl Clone for ArmedClone {
     }
 }
 
-#[unimock(api=QMock, unmock_with=[real_q0, _, _, _])]
+#[unimock(api=QMock, unmock_with=[real_q0, _, _, _, _])]
 pub trait Q {
     fn q0(&self, x: u8) -> u32;
     fn q_def(&self, x: u8) -> u32 {
@@ -427,6 +427,8 @@ pub trait Q {
     }
     fn q_dbg(&self, d: ArmedDebug) -> u32;
     fn q_clone(&self, x: u8) -> ArmedClone;
+    /// mocked with ordered (next_call) clauses
+    fn q_ord(&self, x: u8) -> u32;
 }
 
 pub fn real_q0(_: &impl std::any::Any, x: u8) -> u32 {
@@ -461,6 +463,29 @@ pub struct UsableCase {
     pub repeats: u8,
     /// leave one expectation one call short at the end (verification must then fail)
     pub short: bool,
+    /// while the user panic unwinds, a destructor of the panicking scope makes a (successful) ordered call
+    /// on the mock; the ordered sequence must simply continue afterwards
+    #[serde(default)]
+    pub destructor_call: bool,
+}
+
+/// value the destructor's ordered call returned (0 = not run)
+pub static DESTRUCTOR_GOT: AtomicUsize = AtomicUsize::new(0);
+
+struct CallsOnDrop<'a>(&'a Unimock);
+impl Drop for CallsOnDrop<'_> {
+    fn drop(&mut self) {
+        let was = ARMED.swap(false, Ordering::SeqCst);
+        DESTRUCTOR_GOT.store(self.0.q_ord(1) as usize, Ordering::SeqCst);
+        ARMED.store(was, Ordering::SeqCst);
+    }
+}
+
+impl UsableCase {
+    /// the destructor variant is exercised where the panic is caught on the calling thread, once
+    pub fn destructor_in_effect(&self) -> bool {
+        self.destructor_call && matches!(self.via, Via::Original | Via::CloneKept) && self.repeats == 1
+    }
 }
 
 fn usable_setup(c: &UsableCase) -> impl Clause {
@@ -490,6 +515,12 @@ fn usable_setup(c: &UsableCase) -> impl Clause {
         each.call(&|m| m.func(|x: &u8, _| *x == 7)).applies_unmocked().n_times(1 + extra(Origin::UnmockFn));
     }));
     dc.push(QMock::q_clone.each_call(&|m| m.func(|_, _| true)).returns(ArmedClone(1)).n_times(1 + extra(Origin::ReturnClone)));
+    // ordered sequence: before the panic, (by the destructor during the unwinding,) after the panic
+    dc.push(QMock::q_ord.next_call(&|m| m.func(|_, _| true)).answers(&|_, _| 11));
+    dc.push(QMock::q_ord.next_call(&|m| m.func(|_, _| true)).answers(&|_, _| 12));
+    if c.destructor_in_effect() {
+        dc.push(QMock::q_ord.next_call(&|m| m.func(|_, _| true)).answers(&|_, _| 13));
+    }
     if c.usable_origin == Origin::ArgDebug {
         // (a mock that is never matched counts as dead: only mention it where it is called)
         dc.push(QMock::q_dbg.each_call(&|m| m.func(|_, _| false)).answers(&|_, _| 0));
@@ -524,8 +555,11 @@ fn usable_trigger(origin: Origin, u: &Unimock) {
 /// Worker side. "OK" or "FAIL: ...".
 pub fn execute_usable(c: &UsableCase) -> String {
     ARMED.store(false, Ordering::SeqCst);
+    // the mock lives outside the closure: after an early error return it is torn down quietly
+    let mut original_slot: Option<Unimock> = None;
     let res = catch(|| -> Result<(), String> {
-        let mut original = Some(Unimock::new(usable_setup(c)));
+        let original = &mut original_slot;
+        *original = Some(Unimock::new(usable_setup(c)));
         let expect = |what: &str, got: Result<u32, String>, want: u32| -> Result<(), String> {
             match got {
                 Ok(v) if v == want => Ok(()),
@@ -536,18 +570,27 @@ pub fn execute_usable(c: &UsableCase) -> String {
         {
             let u = original.as_ref().unwrap();
             expect("q0(1) before the panic", catch(|| u.q0(1)), 101)?;
+            expect("q_ord (first ordered call) before the panic", catch(|| u.q_ord(0)), 11)?;
         }
+        DESTRUCTOR_GOT.store(0, Ordering::SeqCst);
+        let with_destructor = c.destructor_in_effect();
         for round in 0..c.repeats {
             ARMED.store(true, Ordering::SeqCst);
             let origin = c.usable_origin;
             let r: Result<(), String> = match c.via {
                 Via::Original => {
                     let u = original.as_ref().unwrap();
-                    catch(|| usable_trigger(origin, u))
+                    catch(|| {
+                        let _guard = if with_destructor { Some(CallsOnDrop(u)) } else { None };
+                        usable_trigger(origin, u)
+                    })
                 }
                 Via::CloneKept => {
                     let cl = original.as_ref().unwrap().clone();
-                    let r = catch(|| usable_trigger(origin, &cl));
+                    let r = catch(|| {
+                        let _guard = if with_destructor { Some(CallsOnDrop(&cl)) } else { None };
+                        usable_trigger(origin, &cl)
+                    });
                     ARMED.store(false, Ordering::SeqCst);
                     drop(cl);
                     r
@@ -567,7 +610,7 @@ pub fn execute_usable(c: &UsableCase) -> String {
                     let arc = Arc::new(original.take().unwrap());
                     let h = arc.clone();
                     let r = std::thread::spawn(move || usable_trigger(origin, &h)).join().map_err(payload_to_string);
-                    original = Some(Arc::try_unwrap(arc).map_err(|_| "HARNESS: the joined thread kept its handle".to_string())?);
+                    *original = Some(Arc::try_unwrap(arc).map_err(|_| "HARNESS: the joined thread kept its handle".to_string())?);
                     r
                 }
             };
@@ -583,6 +626,15 @@ pub fn execute_usable(c: &UsableCase) -> String {
         // the mock must behave as if the panicking calls had merely been matched (or not, for the matcher)
         let u = original.as_ref().unwrap();
         let cl = u.clone();
+        if with_destructor {
+            let got = DESTRUCTOR_GOT.load(Ordering::SeqCst);
+            if got != 12 {
+                return Err(format!("the ordered call made by a destructor during the unwinding returned {got}, the second position answers 12"));
+            }
+            expect("q_ord (third ordered call) after the panic", catch(|| u.q_ord(2)), 13)?;
+        } else {
+            expect("q_ord (second ordered call) after the panic", catch(|| u.q_ord(2)), 12)?;
+        }
         expect("q0(2) after the panic", catch(|| u.q0(2)), 102)?;
         if !c.short {
             expect("q0(3) after the panic (through a clone)", catch(|| cl.q0(3)), 103)?;
@@ -612,6 +664,9 @@ pub fn execute_usable(c: &UsableCase) -> String {
         }
     });
     ARMED.store(false, Ordering::SeqCst);
+    if let Some(o) = original_slot.take() {
+        let _ = catch(move || drop(o));
+    }
     match res {
         Ok(Ok(())) => "OK".to_string(),
         Ok(Err(e)) if e.starts_with("HARNESS") => format!("FAIL: {e}"),
@@ -626,7 +681,10 @@ pub fn usable_table() -> Vec<UsableCase> {
         for via in VIAS {
             for repeats in [1u8, 2, 3] {
                 for short in [false, true] {
-                    v.push(UsableCase { usable_origin, via, repeats, short });
+                    v.push(UsableCase { usable_origin, via, repeats, short, destructor_call: false });
+                    if repeats == 1 && matches!(via, Via::Original | Via::CloneKept) {
+                        v.push(UsableCase { usable_origin, via, repeats, short, destructor_call: true });
+                    }
                 }
             }
         }
@@ -648,6 +706,7 @@ pub fn check_usable(worker: &std::cell::RefCell<Worker>, case: &UsableCase) -> R
                 _ => "panic-in:return-value-Clone",
             })
             .class_if(case.short, "one-call-short-at-the-end")
+            .class_if(case.destructor_in_effect(), "ordered-call-by-a-destructor-during-the-unwinding")
             .class_if(matches!(case.via, Via::CloneOnJoinedThread | Via::SharedOnJoinedThread), "panic-killed-a-joined-thread")),
         Reply::Line(l) if l.contains("HARNESS") => Err(format!("HARNESS: {l}")),
         Reply::Line(l) => Err(l),
